@@ -35,6 +35,12 @@ Theorem C03_unique :
 Proof. exact hash_unique. Qed.
 Print Assumptions C03_unique.
 
+Theorem C03_content_determines_hash :
+  forall s1 s2, wf s1 -> Inv s1 -> wf s2 -> Inv s2 -> same_content s1 s2 ->
+    Forall2 (fun a b => e_hash a = e_hash b) (s_edges s1) (s_edges s2).
+Proof. exact content_determines_hash. Qed.
+Print Assumptions C03_content_determines_hash.
+
 (* a store verification (recompute every hash from the stored child hashes) finds nothing to repair
    exactly when the equation holds *)
 Theorem C03_verify_clean : forall st, Inv st <-> verify st = [].
